@@ -232,7 +232,7 @@ func VH_udp_idle() {
 	pc := &gatedPC{scriptPC: scriptPC{shutdown: make(chan struct{})}, gates: []chan struct{}{make(chan struct{}), make(chan struct{}), make(chan struct{})}}
 	close(pc.gates[0])
 	for i := 0; i < 3; i++ {
-		pc.script = append(pc.script, dgram{0, []byte{byte(0x41 + i)}})
+		pc.script = append(pc.script, dgram{0, []byte{byte(0x41 + i), 0x61, 0x62}[:1+i]}) // 1, 2 and 3 bytes long
 	}
 	w.pc = pc
 	rl := layer4.RouteList{layer4.VerifNewRoute(nil, []layer4.NextHandler{idleHandler{w}})}
@@ -253,6 +253,7 @@ func VH_udp_idle() {
 	if len(w.reads) == 3 {
 		vapi.Cover("all three datagrams read")
 		vapi.Assert(w.reads[1][0] == 0x42 && w.reads[2][0] == 0x43, "datagrams out of order")
+		vapi.Assert(len(w.reads[0]) == 1 && len(w.reads[1]) == 2 && len(w.reads[2]) == 3, "a datagram was truncated or padded")
 	}
 }
 
@@ -264,11 +265,14 @@ func VH_partial() {
 	d2 := vapi.Bytes("d2", 4)
 	vapi.Assume(len(d1) > 0 && len(d2) > 0)
 	layer4.VerifPacketConnFeed(pc, d1)
-	layer4.VerifPacketConnFeed(pc, d2)
 	_ = pc.SetReadDeadline(time.Now().Add(time.Second))
 	k := vapi.Int("bufsize", 1, 12)
 	pos := 0
 	for r := 0; r < 12 && pos < len(d1); r++ {
+		if r == 1 {
+			// the next datagram arrives (in a buffer fresh from the pool) while d1 is half read
+			layer4.VerifPacketConnFeed(pc, d2)
+		}
 		p := make([]byte, k)
 		n, err := pc.Read(p)
 		vapi.Assert(err == nil, "a read inside a datagram failed")
@@ -279,6 +283,8 @@ func VH_partial() {
 	vapi.Assert(pos == len(d1), "the datagram was not fully returned")
 	if k < len(d1) {
 		vapi.Cover("datagram read in pieces")
+	} else {
+		layer4.VerifPacketConnFeed(pc, d2)
 	}
 	p := make([]byte, 16)
 	n, err := pc.Read(p)
